@@ -14,16 +14,16 @@
      conversions; not, boolean, contains, starts-with, concat, position, last.
    * section 3.3: union.
 
-   What is outside the modelled subset evaluates to None (never to a guess): comparisons that need the
-   string -> number conversion (<, <=, >, >= on strings or attributes, = between a number and a string or
-   attribute), the function text() (it is not an XPath 1.0 function), attribute values as arguments of concat.
+   What is outside the modelled subset evaluates to None (never to a guess): the function text() (it is not an
+   XPath 1.0 function), string functions applied to numbers or booleans (number formatting is not modelled).
+   Numbers are exact decimals (Num.v).
 
    Besides the thirteen-minus-two standard axes and the standard tests, the reference language has the three
    constructs delb's *documented* deviations translate to (RFollowingExt, RPrecedingExt, RElementOrRoot); they
    are defined here from the standard notions and are produced only by `deviate`, never by `to_ref`. *)
 From Delb.Base Require Import PyStr.
 From Delb.Tree Require Import ATree ITree.
-From Delb.XPath Require Import Ast Nav.
+From Delb.XPath Require Import Ast Nav Num.
 
 Inductive raxis :=
 | RAncestor | RAncestorOrSelf | RChild | RDescendant | RDescendantOrSelf | RFollowing | RFollowingSibling
@@ -107,33 +107,43 @@ Definition r_attr (m : nsmap) (c : nd) (p : option str) (l : str) : option (list
                                        | Some v => [v] | None => [] end else [])
   end.
 
-Definition num_cmp (o : binop) (a b : N) : bool :=
-  match o with
-  | OpEq => N.eqb a b | OpNe => negb (N.eqb a b) | OpLt => N.ltb a b | OpLe => N.leb a b
-  | OpGt => N.ltb b a | OpGe => N.leb b a | _ => false
+(* section 3.4 / 4.4: conversions.  number() of a string: Num.xpath_number *)
+Definition is_rbool (v : rval) : bool := match v with RBool _ => true | _ => false end.
+Definition is_rnum (v : rval) : bool := match v with RNum _ => true | _ => false end.
+Definition to_number (v : rval) : xnum :=
+  match v with
+  | RBool b => xnum_of_bool b
+  | RNum n => xnum_of_N n
+  | RStr s => xpath_number s
+  | RAttrs l => xpath_number (match l with s :: _ => s | [] => [] end)
   end.
-Definition strs_of (v : rval) : option (list str) :=
-  match v with RStr s => Some [s] | RAttrs l => Some l | _ => None end.
-(* section 3.4 *)
-Definition r_compare (o : binop) (a b : rval) : option bool :=
-  match o with
-  | OpAnd | OpOr => None
-  | _ =>
-      match a, b with
-      | RNum x, RNum y => Some (num_cmp o x y)
-      | RBool x, _ => match o with OpEq => Some (Bool.eqb x (to_bool b)) | OpNe => Some (negb (Bool.eqb x (to_bool b))) | _ => None end
-      | _, RBool y => match o with OpEq => Some (Bool.eqb (to_bool a) y) | OpNe => Some (negb (Bool.eqb (to_bool a) y)) | _ => None end
-      | _, _ =>
-          match strs_of a, strs_of b with
-          | Some la, Some lb =>
-              match o with
-              | OpEq => Some (existsb (fun x => existsb (fun y => str_eqb x y) lb) la)
-              | OpNe => Some (existsb (fun x => existsb (fun y => negb (str_eqb x y)) lb) la)
-              | _ => None
-              end
-          | _, _ => None
-          end
-      end
+Definition cmpop_of (o : binop) : option cmpop :=
+  match o with OpEq => Some CEq | OpNe => Some CNe | OpLt => Some CLt | OpLe => Some CLe | OpGt => Some CGt | OpGe => Some CGe
+             | _ => None end.
+(* "neither object is a node-set": = and != compare booleans if one is a boolean, else numbers if one is a number,
+   else strings; <, <=, >, >= compare numbers *)
+Definition atom_compare (c : cmpop) (a b : rval) : bool :=
+  match c with
+  | CEq | CNe =>
+      if is_rbool a || is_rbool b then
+        (match c with CEq => Bool.eqb (to_bool a) (to_bool b) | _ => negb (Bool.eqb (to_bool a) (to_bool b)) end)
+      else if is_rnum a || is_rnum b then num_compare c (to_number a) (to_number b)
+      else match a, b with
+           | RStr x, RStr y => (match c with CEq => str_eqb x y | _ => negb (str_eqb x y) end)
+           | _, _ => false
+           end
+  | _ => num_compare c (to_number a) (to_number b)
+  end.
+(* with node-sets (here: what an attribute step yields, by string value): existential over the nodes; against a
+   boolean the node-set is converted with boolean() *)
+Definition r_compare (c : cmpop) (a b : rval) : bool :=
+  match a, b with
+  | RAttrs la, RAttrs lb => existsb (fun x => existsb (fun y => atom_compare c (RStr x) (RStr y)) lb) la
+  | RAttrs la, RBool _ => atom_compare c (RBool (negb (null la))) b
+  | RBool _, RAttrs lb => atom_compare c a (RBool (negb (null lb)))
+  | RAttrs la, _ => existsb (fun x => atom_compare c (RStr x) b) la
+  | _, RAttrs lb => existsb (fun y => atom_compare c a (RStr y)) lb
+  | _, _ => atom_compare c a b
   end.
 
 Definition str_is (a b : str) : bool := str_eqb a b.
@@ -183,8 +193,8 @@ Fixpoint r_expr (m : nsmap) (e : expr) (c : nd) (pos size : N) {struct e} : opti
       match r_expr m l c pos size, r_expr m r c pos size with
       | Some a, Some b => Some (RBool (to_bool a || to_bool b)) | _, _ => None end
   | BooleanOperator o l r =>
-      match r_expr m l c pos size, r_expr m r c pos size with
-      | Some a, Some b => option_map RBool (r_compare o a b) | _, _ => None end
+      match r_expr m l c pos size, r_expr m r c pos size, cmpop_of o with
+      | Some a, Some b, Some cp => Some (RBool (r_compare cp a b)) | _, _, _ => None end
   | Function name args =>
       match all_some ((fix go (l : list expr) : list (option rval) :=
                          match l with [] => [] | x :: r => r_expr m x c pos size :: go r end) args) with
